@@ -2,7 +2,7 @@
    A case is one history: every action with what the harness observed (who was handed the envelope,
    result of Subscribe/Close, ...) and the relay's subscription and cache counts after the action
    (read through wire/verif_export.go), plus the number of deliveries nobody was owed. *)
-From Coq Require Import List Bool Arith PeanoNat.
+From Coq Require Import List Bool PeanoNat.
 From V Require Export Model.Relay.
 Export ListNotations.
 
